@@ -120,6 +120,13 @@ func (f *Flat) consumes(fi *FuncInfo, n *GNode, E types.Object, o flowOpts) (boo
 					continue
 				}
 				Y := objOf(info, s.Lhs[i])
+				if sel, isSel := ast.Unparen(s.Lhs[i]).(*ast.SelectorExpr); isSel && Y == nil {
+					// an error-typed field of a struct that is a local variable of this function (an accumulator
+					// filled through an inlined helper): the obligation moves to the field
+					if root := f.CanonRoot(sel.X); root != nil && fi.body() != nil && root.Pos() >= fi.body().Pos() && root.Pos() < fi.body().End() {
+						Y = errVarOf(info, sel)
+					}
+				}
 				if Y == nil || !isErrorType(Y.Type()) {
 					// field or composite: e.g. err = model.NotEnoughSpaceError{Err: err}
 					continue
@@ -315,6 +322,38 @@ func (f *Flat) SiteConsumed(r *Report, rule, cons string, fi *FuncInfo, s callSi
 						r.Hold(rule, cons, p.pos(s.Call), "returned "+why)
 						return true
 					}
+				}
+			}
+		}
+		// handed to a helper of the package (an error accumulator, a filter like ignoreNotFound): follow the value
+		// through the helper's body spliced into this function's graph
+		if f.Inl == nil && fi != nil {
+			if g := p.FlatInl(fi); g != nil && len(g.Inl) > 0 {
+				for _, gn := range g.Nodes {
+					as, isAs := gn.Ast.(*ast.AssignStmt)
+					if !isAs || gn.Synth == "" {
+						continue
+					}
+					direct := false
+					for _, rh := range as.Rhs {
+						if ast.Unparen(rh) == ast.Expr(s.Call) {
+							direct = true
+						}
+					}
+					if !direct {
+						continue
+					}
+					bs := g.bindOf(gn, s.Call)
+					if bs.Kind != "assigned" {
+						continue
+					}
+					res := g.errorConsumed(fi, bs.Node, bs.ErrVar, o)
+					if res.OK {
+						r.Hold(rule, cons, p.pos(s.Call), "handed to a helper of the package; consumed on every path on which it may be non-nil (helper inlined)")
+						return true
+					}
+					r.Viol(rule, cons, p.pos(s.Call), "handed to a helper of the package: "+res.Detail, res.Pos)
+					return false
 				}
 			}
 		}
